@@ -173,7 +173,8 @@ NEWER = [b'a |= 1\n', b'a \\= 2\n', b'?x,y\n', b'a=b=c\n', b'x = 1 y == 2\n', b'
 
 SHORTIF_PROBES = [b'if (a) print("x\\ny") b=1\nc=2\n', b'if (a) return "\\n"\n', b"if (a) s='\\\\' t=2\nu=3\n", b'if (a) f[[x]] g=1\nh=2\n',
                   b'if (a) f() --[[k]] g=1\nh=2\n', b'if (a) b=1 else c="\\n"\nd=4\n', b'if (a) b="\\"" c=[=[]]]=] d=1\ne=2\n',
-                  b'function f()\n if (a) return "\\n", 1\nend\n', b'if (a) b=1 --c\nd="\\n"\n', b'if (a) b="\\065\\x41\\z  c" d=2\ne=3\n']
+                  b'function f()\n if (a) return "\\n", 1\nend\n', b'if (a) b=1 --c\nd="\\n"\n', b'if (a) b="\\065\\x41\\z  c" d=2\ne=3\n',
+                  b's=[[\n\nabc]] t=[==[\nx]==] u=[[\n]]\n', b'f[[\n\n]] g[=[\n\n\n]=]\n']
 
 
 def probe_cases():
